@@ -313,6 +313,9 @@ def run(tier, seed):
                                  {"python": snippet(f"ns = space({sid!r})\nassert {k!r} in ns\n")})
                         continue
                     q = ns[k]
+                    if g in ("cgs", "hcgs") and D.current_mks in q.units.dimensions.free_symbols:
+                        chk.fail(f"cgs-guise-not-cgs|{cname}", f"{sid}: {k} = {q!r} still carries the MKS current dimension",
+                                 {"python": snippet(f"ns = space({sid!r})\nassert D.current_mks not in ns[{k!r}].units.dimensions.free_symbols, ns[{k!r}]\n")})
                     if not same(q, table_q):
                         chk.fail(f"guise|{kind}|{cname}|{g}",
                                  f"{sid}: {k} = {q!r} is not the quantity of the table row {cname} = {value!r} {unit_name}",
@@ -344,7 +347,8 @@ def run(tier, seed):
     rel_model = ask([f"c15.relation\t{n}" for n in RELATIONS])
     for (rname, (lhs, rhs)), mrep in zip(RELATIONS.items(), rel_model):
         numeric = rname in ("thomson", "unit_eV")
-        tol = 1e-6 if numeric else RELTOL_IDENTITY
+        # tolerance of a relation between independent literals: the reference's (Ref.C15.numRelations)
+        tol = (float(F(mrep[4])) if (mrep[0] == "ok" and len(mrep) > 4) else 1e-6) if numeric else RELTOL_IDENTITY
         for sid in [s for s in live if s != "top"]:
             ns = live[sid]
             chk.case(("relation", rname, sid))
@@ -439,11 +443,34 @@ def run(tier, seed):
                      {"python": snippet(f"v, u, _ = TABLE[{n!r}]\nq = unyt_quantity(v, u)\n"
                                         f"assert abs(mag(q) - F({str(ref)!r})) <= F({str(tol)!r}) * abs(F({str(ref)!r})), float(mag(q))\n")})
 
+    # ------------------------------------------------------------------ direct oracle 5: the 2019-exact constants follow a published edition
+    ed_names = ask(["c15.editions"])[0]
+    ed_names = [x for x in ed_names[1].split(",") if x] if ed_names[0] == "ok" else []
+    followed = {}
+    for n, r in zip(ed_names, ask([f"c15.editions\t{n}" for n in ed_names])):
+        if r[0] != "ok" or n not in TABLE:
+            chk.disagree("editions", f"{n}: {r}")
+            continue
+        value, unit_name, _al = TABLE[n]
+        m = mag(unyt_quantity(value, unit_name))
+        eds = [x.split("=") for x in r[2].split(";")]
+        hit = [lab for lab, v in eds if abs(m - F(v)) <= GUISE_TOL * abs(F(v))]
+        chk.case(("edition", n))
+        chk.count("edition")
+        followed[n] = hit[0] if hit else None
+        if (hit[0] if hit else "(none)") != r[1]:
+            chk.disagree("editions", f"{n}: model says {r[1]}, live value matches {hit}")
+        if not hit:
+            cond = " or ".join(f"abs(m - F({v!r})) <= TOL * F({v!r})" for _lab, v in eds)
+            chk.fail(f"edition|{n}", f"constant {n} = {value!r} {unit_name} is not the recommended value of any of {[lab for lab, _ in eds]}",
+                     {"python": snippet(f"v, u, _ = TABLE[{n!r}]\nm = mag(unyt_quantity(v, u))\nassert {cond}, float(m)\n")})
+    chk.extra["editions_followed"] = followed
+
     # ------------------------------------------------------------------ model checks and exclusion lists
-    checks = [f"c15.check\t{w}" for w in ("relations", "numrelations", "top", "constdoubles", "unitdoubles", "unsuffixed", "constunits")] \
+    checks = [f"c15.check\t{w}" for w in ("relations", "numrelations", "top", "constdoubles", "unitdoubles", "unsuffixed", "constunits", "editions")] \
         + ["c15.check\tunitconst\t1", "c15.check\tunitconstsym\t1", "c15.check\tvalues\t1"] \
         + [f"c15.check\tspace\t{w}\t{gen_sid.get(s, s)}" for s in sids if s in live
-           for w in ("names", "table", "mks", "aliases", "suffixes", "registry")]
+           for w in ("names", "table", "mks", "cgsdim", "aliases", "suffixes", "registry")]
     for line, r in zip(checks, ask(checks)):
         chk.count("model-check")
         if r != ["ok", "1"]:
